@@ -643,6 +643,10 @@ class RTable:
             return K.as_ty(c, REAL)
         if tgt == STR and c.ty == INT:
             return S.int_to_str(c)
+        if tgt == STR and c.ty == REAL:
+            # documented: decimal notation; defined here for quarter-dyadic values (x*4 integral)
+            w.define("cast float->str: quarter-dyadic value", z3.Implies(K.Not(c.null), z3.IsInt(c.val * 4)))
+            return S.real_to_str(c)
         raise RefError(f"REF: cast {c.ty}->{tgt} not modelled")
 
     def _order_spec(self, arrange, mode):
